@@ -41,6 +41,15 @@ package fixedtree
 //@   ensures [local-chain] r0 == nil ==> forall(l, 0 <= l && l < (len(nodes)-1)/2 ==> exists(j, 2*l+2 <= j && j <= 2*l+3 && j < len(nodes) && nodes[j] != nil && !nodes[j].IsEmpty() && snd(nodeHash(nodes[j], nodes[2*l], nodes[2*l+1])) == nil && nodes[j].Hash().Equal(fst(nodeHash(nodes[j], nodes[2*l], nodes[2*l+1])))))
 //@   loop 0 invariant forall(l, 0 <= l && l < i ==> exists(j, 2*l+2 <= j && j <= 2*l+3 && j < len(nodes) && nodes[j] != nil && !nodes[j].IsEmpty() && snd(nodeHash(nodes[j], nodes[2*l], nodes[2*l+1])) == nil && nodes[j].Hash().Equal(fst(nodeHash(nodes[j], nodes[2*l], nodes[2*l+1])))))
 
+// Tree.IsValid, the per-node step (function literal verified on its own): a node
+// is passed only after its hash has been recomputed from its key and the
+// children childrenNodes returns for it (both nil for a leaf) and found equal
+//@ func (Tree).IsValid$1
+//@   prop C12
+//@   requires n != nil && len(t.nodes) < 4611686018427387904 && (n.IsValid(b) == nil ==> n.Hash() != nil)
+//@   callsite nodeHash requires a0 == n && a1 == children[0] && a2 == children[1]
+//@   ensures [local-node-bound] r0 && r1 == nil ==> exists(Node(a), Node(b), snd(nodeHash(n, a, b)) == nil && n.Hash().Equal(fst(nodeHash(n, a, b))))
+
 // a node's children are exactly the nodes at the indices `children` computes,
 // nil beyond the end of the tree: every node below the root is some node's child
 //@ func children
